@@ -440,6 +440,12 @@ def main():
         for fl in r["failures"]:
             seen_sig.setdefault(fl["signature"], (r, fl))
     for sig, (r, fl) in sorted(seen_sig.items()):
+        # a monitor clause belongs to the property named in its signature; the check of another
+        # property sharing the family leaves it to that property's own check
+        m_ = re.match(r"(C\d\d):", sig)
+        if m_ and pid.startswith("C") and m_.group(1) != pid and m_.group(1) in PROPS:
+            notes.append("monitor clause of %s observed (reported by ./check %s): %s" % (m_.group(1), m_.group(1), sig))
+            continue
         if sig in known_sigs:
             known_lines.append("KNOWN-FINDING: property=%s %s [%s]" % (pid, known_sigs[sig]["what"], sig))
             continue
